@@ -115,6 +115,28 @@ func TestGenQueue(t *testing.T) {
 			} else {
 				o.line("SY %d %d %d %d", s, top, a, nk)
 			}
+			// direct oracles (C07/C09; Coq: initResendUpTo_total / _in_range / _predecessor): a non-empty
+			// sequence space never panics; for top inside it the expected NACK is top, the expected ACK is
+			// inside the space, and is the predecessor of top whenever s+top-1 fits a uint8
+			if s >= 1 {
+				s, top := s, top
+				q.check(!p, "queue:syncer:panic", func() string {
+					return fmt.Sprintf("syncer.initResendUpTo s=%d top=%d panics", s, top)
+				})
+				if !p && top < s {
+					a, nk := int(a), int(nk)
+					q.check(nk == top && a < s, "queue:syncer:range", func() string {
+						return fmt.Sprintf("syncer.initResendUpTo s=%d top=%d: expectedACK=%d expectedNACK=%d "+
+							"(want NACK=top, ACK < s)", s, top, a, nk)
+					})
+					if s+top <= 256 {
+						q.check((a+1)%s == top, "queue:syncer:predecessor", func() string {
+							return fmt.Sprintf("syncer.initResendUpTo s=%d top=%d: expectedACK=%d is not the "+
+								"predecessor of top (%d) although s+top-1 fits a uint8", s, top, a, (top+s-1)%s)
+						})
+					}
+				}
+			}
 		}
 	}
 	q.stat("syncer_init_pairs", 65536)
